@@ -55,7 +55,7 @@ func NewEngine(prog *ssa.Program) *Engine {
 		},
 		Unsupp: map[string]int{},
 		AllowFns: map[string]bool{
-			"(*syscall.Iovec).SetLen": true, "(*syscall.Msghdr).SetControllen": true, "(*syscall.Msghdr).SetIovlen": true,
+			"(*syscall.Iovec).SetLen": true, "(*net.OpError).Timeout": true, "(*os.SyscallError).Timeout": true, "(*syscall.Msghdr).SetControllen": true, "(*syscall.Msghdr).SetIovlen": true,
 		},
 	}
 }
